@@ -32,7 +32,8 @@ HARNESSES = [
 GROUPS = {"body": "check_body", "big": "check_big", "reload": "check_reload"}
 EXPLAIN = {"body": "explain_body", "big": "explain_big", "reload": "explain_reload"}
 CASES = {"quick": 500, "thorough": 6000}
-RULE = ("pool histories (1 in 200, one processor, GC off): a chunked response of 1.3 MB - withheld by a 1.1 MB limit or delivered under the 4 MB default - followed by small "
+RULE = ("a quarter of the uploads carry Expect: 100-continue; a third of the backend answers have a Content-Type other than octet-stream (text/event-stream, application/grpc, "
+        "multipart, text/plain, json, none); pool histories (1 in 200, one processor, GC off): a chunked response of 1.3 MB - withheld by a 1.1 MB limit or delivered under the 4 MB default - followed by small "
         "chunked / close-delimited responses through the same process; slow uploads (1 in 90) through the package's real runtime with keepAliveTimeout 20-50 ms and a "
         "within-limit body sent steadily for 2-3 times that long; reload histories also reload the PIPELINE (Pipeline.Inherit -> Proxy.Inherit) when pool / proxy serverMaxBodySize or the pool's memoryCache spec change between "
         "steps: cacheable GETs answered and cached, the limit lowered / raised / unchanged with the cache spec kept or changed, the same GET again, response bodies at and "
